@@ -35,3 +35,14 @@ Theorem C05_cluster_independent_of_other_cluster : forall (A B O : Type) (fa : A
 Proof. exact @cluster_independent_of_other_cluster. Qed.
 Print Assumptions C05_desolvation_ignores_far_set_in_both_orders.
 Print Assumptions C05_cluster_independent_of_other_cluster.
+
+(* ---- the iterative scheme itself (model/Iterative.v on the GENERATED pair functions): a sweep acts cluster-wise ---- *)
+From V Require Import DetsGen Iterative IterativeProofs.
+Theorem C05_sweep_is_cluster_local : forall (isA : nat -> bool) (objs objs' : list (obj (F:=R))) inters inters' o,
+  agree isA objs objs' -> separated isA inters -> separated isA inters' -> filter (inA isA) inters = filter (inA isA) inters' -> isA o = true ->
+  pka_new objs inters o = pka_new objs' inters' o.
+Proof. intros isA. exact (pka_new_cluster_local isA). Qed.
+Theorem C05_annihilation_is_cluster_local : forall (isA : nat -> bool) (objs objs' : list (obj (F:=R))) it,
+  agree isA objs objs' -> inA isA it = true -> snd (pair_result objs it) = snd (pair_result objs' it).
+Proof. intros isA. exact (annihilation_cluster_local isA). Qed.
+Print Assumptions C05_sweep_is_cluster_local.
